@@ -11,9 +11,9 @@ cd "$WT" || exit 2
 git checkout -q -- . ; git apply "$OUT/patch.diff" || { echo "patch does not apply"; exit 2; }
 mkdir -p tests; cp "$OUT/demo.rs" tests/demo_seed.rs
 LIB=$(cargo test --offline --lib 2>&1 | grep -E "^test result" | head -1)
-DEMO_WITH=$(cargo test --offline --test demo_seed --features $FEAT 2>&1 | grep -E "^test result|error(\[|:)" | head -3 | tr '\n' ' ')
+DEMO_WITH=$(cargo test --offline --test demo_seed --features $FEAT 2>&1 | grep -E "^test result" | head -3 | tr '\n' ' ')
 git apply -R "$OUT/patch.diff"
-DEMO_WITHOUT=$(cargo test --offline --test demo_seed --features $FEAT 2>&1 | grep -E "^test result|error(\[|:)" | head -3 | tr '\n' ' ')
+DEMO_WITHOUT=$(cargo test --offline --test demo_seed --features $FEAT 2>&1 | grep -E "^test result" | head -3 | tr '\n' ' ')
 echo "lib(with): $LIB"; echo "demo(with): $DEMO_WITH"; echo "demo(without): $DEMO_WITHOUT"
 ok=1
 echo "$LIB" | grep -q "40 passed; 0 failed" || ok=0
